@@ -11,6 +11,7 @@ display width (wcwidth) of all lines of a block, total line when rows are cut;
 print_ output must equal to_string.
 """
 
+import math
 import os
 
 import numpy as np
@@ -57,7 +58,7 @@ def generate(rng, tier):
     if rng.random() < 0.3: settings["PRINT_FLOAT_PRECISION"] = rng.choice([0, 2, 10])
     if rng.random() < 0.2: settings["PRINT_THOUSAND_SEPARATOR"] = rng.choice([",", " ", "_", "'", ".", "\u2009"])
     if rng.random() < 0.2: settings["PRINT_TRUNCATE_WIDTH"] = rng.choice([1, 5, 100])
-    if rng.random() < 0.2: settings["PRINT_MAX_ROWS"] = rng.choice([1, 3])
+    if rng.random() < 0.2: settings["PRINT_MAX_ROWS"] = rng.choice([1, 3, math.inf])
     if rng.random() < 0.15: settings["PRINT_MAX_WIDTH"] = rng.choice([1, 20, 200])
     if rng.random() < 0.2: settings["PRINT_MAX_ELEMENTS"] = rng.choice([0, 2, 5])
     if rng.random() < 0.2: settings["PRINT_MAX_ITEMS"] = rng.choice([0, 1, 2])
@@ -73,8 +74,8 @@ def generate(rng, tier):
         spec = [(nm, k, _values(rng, k, nrow)) for nm, k in ((nm, rng.choice(KINDS)) for nm in names)]
         case["spec"] = spec
         opts = {}
-        if rng.random() < 0.5: opts["max_rows"] = rng.choice([1, 2, 3, 10, 200])
-        if rng.random() < 0.5: opts["max_width"] = rng.choice([1, 3, 5, 10, 30, 60, 300])
+        if rng.random() < 0.5: opts["max_rows"] = rng.choice([1, 2, 3, 10, 200, math.inf])
+        if rng.random() < 0.5: opts["max_width"] = rng.choice([1, 3, 5, 10, 30, 60, 300, math.inf])      # inf: the "no limit" idiom
         if rng.random() < 0.4: opts["truncate_width"] = rng.choice([1, 2, 8, 50])
         case["opts"] = opts
         case["grouped"] = rng.random() < 0.2
